@@ -11,7 +11,12 @@ fn ref_utf8(b: &[u8]) -> usize { match std::str::from_utf8(b) { Ok(_) => b.len()
 fn ref_utf16(u: &[u16]) -> usize { let mut i = 0; while i < u.len() { let x = u[i]; if (0xD800..0xDC00).contains(&x) { if i + 1 < u.len() && (0xDC00..0xE000).contains(&u[i + 1]) { i += 2; continue; } return i; } else if (0xDC00..0xE000).contains(&x) { return i; } i += 1; } u.len() }
 fn ref_latin1_up_to(b: &[u8]) -> usize { let v = ref_utf8(b); let s = std::str::from_utf8(&b[..v]).unwrap(); s.char_indices().find(|(_, c)| *c as u32 > 0xFF).map(|(i, _)| i).unwrap_or(v) }
 
+/// A validator / classifier that panics does not return an answer at all: reported like a wrong answer.
 pub fn check_bytes(drv: &mut Driver, ev: &mut Ev, data: &[u8], align: usize, enumerated: bool, miri: bool) {
+    let r = std::panic::catch_unwind(std::panic::AssertUnwindSafe(|| check_bytes_inner(drv, ev, data, align, enumerated, miri)));
+    if let Err(e) = r { ev.violation("std-diff", "panic(bytes)", format!("a function panicked: {} | {} bytes at alignment {}, input {}", panic_message(&e), data.len(), align, hexs(data))); }
+}
+fn check_bytes_inner(drv: &mut Driver, ev: &mut Ev, data: &[u8], align: usize, enumerated: bool, miri: bool) {
     let tr = ev.case();
     let b = drv.src8.carve_from(data, align);
     let nontrivial = data.iter().any(|x| *x >= 0x80);
@@ -40,6 +45,10 @@ pub fn check_bytes(drv: &mut Driver, ev: &mut Ev, data: &[u8], align: usize, enu
     ev.sample(|| format!("bytes {} -> utf8_valid_up_to {}", hexs(data), e8));
 }
 pub fn check_units(drv: &mut Driver, ev: &mut Ev, data: &[u16], align: usize, enumerated: bool) {
+    let r = std::panic::catch_unwind(std::panic::AssertUnwindSafe(|| check_units_inner(drv, ev, data, align, enumerated)));
+    if let Err(e) = r { ev.violation("std-diff", "panic(units)", format!("a function panicked: {} | {} units at alignment {}, input [{}]", panic_message(&e), data.len(), align, hex16(&data[..data.len().min(80)]))); }
+}
+fn check_units_inner(drv: &mut Driver, ev: &mut Ev, data: &[u16], align: usize, enumerated: bool) {
     let tr = ev.case();
     let u = drv.src16.carve_from(data, align);
     if data.iter().any(|x| (0xD800..0xE000).contains(x)) { if enumerated { ev.nontrivial_enum(); } else { ev.nontrivial_hash(H::new().u16s(data).u(align as u64).get()); } }
